@@ -62,9 +62,22 @@ def stat_digest(stat):
     return out
 
 
-def install(model, seeds, with_stats=True, reuse_streams=False, long_lived_producers=False):
+_ALT = {}
+
+
+def alt_types():
+    """a second EventType per statistic (one per process: EventType names are global)"""
+    if not _ALT:
+        from pydsol.core.pubsub import EventType
+        for k in "ctwp":
+            _ALT[k] = EventType("VERIF_ALT_DATA_" + k)
+    return _ALT
+
+
+def install(model, seeds, with_stats=True, reuse_streams=False, long_lived_producers=False, two_types=False):
     """install the construct/action hooks on a ProgModel.  reuse_streams: the stream objects are created once per
-    model and re-seeded with set_seed() for every replication (what a StreamSeedUpdater does in an experiment)."""
+    model and re-seeded with set_seed() for every replication (what a StreamSeedUpdater does in an experiment).
+    two_types: every statistic listens to TWO event types of its producer; observations alternate between them."""
     model.seeds = list(seeds)
     model.stream_objects = None
     model.producer_objects = None
@@ -104,12 +117,21 @@ def install(model, seeds, with_stats=True, reuse_streams=False, long_lived_produ
             #  it forwards event_type=None to listen_to; listen_to with its default works)
             for k, s_ in m.stats.items():
                 s_.listen_to(m.prod[k])
+                if two_types:
+                    s_.listen_to(m.prod[k], alt_types()[k])
+            m.obs_n = 0
 
     def action(m, a):
         from pydsol.core.interfaces import StatEvents
         sim = m.simulator
         k = a[0]
         ns = len(m.streams)
+        ET = {"c": StatEvents.DATA_EVENT, "t": StatEvents.DATA_EVENT, "w": StatEvents.WEIGHT_DATA_EVENT,
+              "p": StatEvents.TIMESTAMP_DATA_EVENT}
+        if with_stats and k.startswith("obs_"):
+            m.obs_n += 1
+            if two_types and m.obs_n % 2:
+                ET = alt_types()
         if k == "rel_rand":
             if m.seq >= m.cap or not m.prog["nodes"] or not ns:
                 return
@@ -132,17 +154,17 @@ def install(model, seeds, with_stats=True, reuse_streams=False, long_lived_produ
             else:
                 m.draws.append(s.next_int(-3, 12))
         elif k == "obs_c" and with_stats:
-            m.prod["c"].fire(StatEvents.DATA_EVENT, a[1])
+            m.prod["c"].fire(ET["c"], a[1])
         elif k == "obs_t" and with_stats:
-            m.prod["t"].fire(StatEvents.DATA_EVENT, float.fromhex(a[1]))
+            m.prod["t"].fire(ET["t"], float.fromhex(a[1]))
         elif k == "obs_t_rand" and with_stats and ns:
-            m.prod["t"].fire(StatEvents.DATA_EVENT, m.streams[a[1] % ns].next_float() * 10.0)
+            m.prod["t"].fire(ET["t"], m.streams[a[1] % ns].next_float() * 10.0)
         elif k == "obs_w" and with_stats:
-            m.prod["w"].fire(StatEvents.WEIGHT_DATA_EVENT, (float.fromhex(a[1]), float.fromhex(a[2])))
+            m.prod["w"].fire(ET["w"], (float.fromhex(a[1]), float.fromhex(a[2])))
         elif k == "obs_p" and with_stats:
-            m.prod["p"].fire_timed(sim.simulator_time, StatEvents.TIMESTAMP_DATA_EVENT, float.fromhex(a[1]))
+            m.prod["p"].fire_timed(sim.simulator_time, ET["p"], float.fromhex(a[1]))
         elif k == "obs_p_rand" and with_stats and ns:
-            m.prod["p"].fire_timed(sim.simulator_time, StatEvents.TIMESTAMP_DATA_EVENT,
+            m.prod["p"].fire_timed(sim.simulator_time, ET["p"],
                                    float(m.streams[a[1] % ns].next_int(0, 5)))
         elif k == "reinit":
             if not sim.is_starting_or_running():
